@@ -8,6 +8,7 @@ pub mod irdump;
 pub mod probe;
 pub mod tokpat;
 pub mod toks;
+pub mod tables;
 pub mod wgpuval;
 pub mod overrides;
 
@@ -380,6 +381,13 @@ fn main() {
         },
         // wgpu-core's shader interface validation as an oracle for the emitted layouts (see wgpuval.rs)
         Some("overrides") if args.len() == 4 => match overrides::overrides(&args[2], &args[3]) {
+            Ok(()) => 0,
+            Err(e) => {
+                eprintln!("driver: {}", e);
+                1
+            }
+        },
+        Some("tables") if args.len() == 3 => match tables::tables(&args[2]) {
             Ok(()) => 0,
             Err(e) => {
                 eprintln!("driver: {}", e);
